@@ -6,6 +6,7 @@ RTA = "rt::arc::Arc::"
 
 
 def A1r(ctx):
+    """Front-end wiring of loom Arc: last-handle bookkeeping only after ref_dec()/get_mut() == true, drop always decrements, clone increments first, get_mut/try_unwrap guards, registry, strong-count balance."""
     prog = ctx.prog
     n = 0
     # unregister only when this was the last handle
